@@ -51,11 +51,16 @@ pub const CONFIG_CHANGES: &[&str] = &[
     "include_private",
     "visualize",
     "output_path",
+    "flag_mode",
+    "file_mode_under_flag",
+    "flag_visualize",
 ];
 pub const DELETABLE: &[&str] = &["types.ts", "commands.ts", "index.ts", "events.ts", ".typecache", "dependency-graph.txt"];
 pub const TAMPERS: &[&str] = &["truncate", "empty", "bitflip", "version", "wrong_shape"];
 
 fn both_entries_possible(s: &Setup) -> bool {
+    // flag overrides only exist on the CLI: a history that may use them sticks to one entry
+    s.entry == Entry::Build &&
     matches!((s.cwd, s.conf), (Cwd::SrcTauri, ConfSrc::Tauri) | (Cwd::SrcTauri, ConfSrc::Standalone) | (Cwd::App, ConfSrc::Standalone))
 }
 
@@ -65,6 +70,9 @@ fn gen_config_change(r: &mut Rng, class: &str, cfg: &Cfg, setup: &Setup, model: 
     let desc;
     match class {
         "mode" => {
+            if c.file_mode.is_some() {
+                return None;
+            }
             c.mode = if c.mode == "zod" { "none".into() } else { "zod".into() };
             desc = format!("validation library -> {}", c.mode);
         }
@@ -132,8 +140,50 @@ fn gen_config_change(r: &mut Rng, class: &str, cfg: &Cfg, setup: &Setup, model: 
             desc = format!("include_private -> {:?}", c.include_private);
         }
         "visualize" => {
+            if c.flag_visualize {
+                return None;
+            }
             c.visualize = !c.visualize;
             desc = format!("visualize_deps -> {}", c.visualize);
+        }
+        "flag_mode" => {
+            // -v on the command line starts (or stops) overriding the file
+            if setup.entry != Entry::Cli || setup.conf == ConfSrc::Flags {
+                return None;
+            }
+            if c.file_mode.is_some() {
+                c.mode = c.file_mode.take().unwrap();
+                desc = format!("drop the -v flag: the file's {} applies again", c.mode);
+            } else {
+                c.file_mode = Some(c.mode.clone());
+                c.mode = if c.mode == "zod" { "none".into() } else { "zod".into() };
+                desc = format!("-v {} on the command line overrides the file", c.mode);
+            }
+        }
+        "file_mode_under_flag" => {
+            // the file changes its mind while the flag pins the mode: output-preserving
+            if setup.entry != Entry::Cli || setup.conf == ConfSrc::Flags {
+                return None;
+            }
+            let f = c.file_mode.clone().unwrap_or_else(|| c.mode.clone());
+            c.file_mode = Some(if f == "zod" { "none".into() } else { "zod".into() });
+            desc = format!("file says {} but -v {} stays on the command line", c.file_mode.clone().unwrap(), c.mode);
+        }
+        "flag_visualize" => {
+            if setup.entry != Entry::Cli || setup.conf == ConfSrc::Flags {
+                return None;
+            }
+            if c.flag_visualize {
+                c.flag_visualize = false;
+                c.visualize = false;
+                desc = "drop --visualize-deps".into();
+            } else if !c.visualize {
+                c.flag_visualize = true;
+                c.visualize = true;
+                desc = "--visualize-deps on the command line".into();
+            } else {
+                return None;
+            }
         }
         "output_path" => {
             let new = if setup.out.ends_with("generated") { "app/src/bindings" } else { "app/src/generated" };
